@@ -16,10 +16,16 @@ def hash_groups():
     g('hash.div', ['C17'], 'h_div', 'cstl_hash_div', what='cstl_hash_div(k,m) < m for all k, all m >= 1')
     g('hash.mul', ['C17'], 'h_mul', 'cstl_hash_mul', what='cstl_hash_mul(k,m) < m for all k, all m >= 1 (IEEE binary32)',
       solver='cvc5', timeout=1500, cover_solver=True)
-    g('hash.load', ['C19'], 'h_load', 'cstl_hash_load', what='cstl_hash_load reports size / effective bucket count')
+    g('hash.load', ['C19'], 'h_load', 'cstl_hash_load', what='cstl_hash_load reports size / effective bucket count', solver='cvc5', timeout=300, cover_solver=True)
     g('hash.get_bucket_raw', ['C17', 'C03'], 'h_get_bucket_raw', '__cstl_hash_get_bucket',
       what='bucket selection with an arbitrary caller hash: result inside [0,count) of the array or abort',
       covers=['end', 'abort'])
+    for n in (1, 2, 3):
+        G.append(Group('hash.clean_bucket.chain%d' % n, ['C19', 'C03'], 'B', S, 'h_clean_bucket_b',
+                       sources=['hash.c'], defines=['-DVF_G_clean_bucket_b', '-DVF_CHAIN=%d' % n], unwind=6, instances=1,
+                       what='cstl_clean_bucket against its flat contract on a chain of %d nodes: stamp set, other stamps kept, frame = bucket array + the detached nodes, one hash consultation per relocated node' % n,
+                       scope='chain of exactly %d nodes in the bucket; bucket array of any size' % n,
+                       covers=['end'] + (['abort'] if n else [])))
     g('hash.rehash_n', ['C19', 'C03'], 'h_rehash_n', '__cstl_hash_rehash', replace=['cstl_clean_bucket'],
       what='sweep: <= n dirty buckets cleaned, progress >= n or completion, completion installs the pending geometry, sweep invariant',
       shards=8)
@@ -138,9 +144,38 @@ def memory_groups():
     return G
 
 
+def array_groups():
+    S = 'spec/s_array.c'
+    src = ['array.c', 'memory.c']
+    G = []
+
+    def g(name, props, harness, enforce, what, defines=(), **kw):
+        G.append(Group('array.' + name, props, 'P', S, harness, enforce=enforce, sources=src,
+                       defines=list(defines), what=what, unwind=2, replay=harness in ('h_slice', 'h_at', 'h_alloc'), **kw))
+    g('at', ['C14'], 'h_at', 'cstl_array_at_const', 'at on every well-formed view (internal buffer): inside the buffer iff i < size, else abort', covers=['end', 'abort'])
+    g('at.external', ['C14'], 'h_at', 'cstl_array_at_const', 'at on every well-formed view of an external buffer', defines=['-DVF_A_EXTERNAL'], covers=['end', 'abort'])
+    g('at.empty', ['C14'], 'h_at', 'cstl_array_at_const', 'at on an empty object always aborts', defines=['-DVF_A_EMPTY'], covers=['abort'])
+    g('slice', ['C14'], 'h_slice', 'cstl_array_slice', 'slice into another (empty) object: abort iff end < beg or off+end > nm (128-bit); new view in range and holds its own owner count', covers=['end', 'abort'])
+    g('slice.inplace', ['C14'], 'h_slice', 'cstl_array_slice', 'slice in place (a == s)', defines=['-DVF_A_INPLACE'], covers=['end', 'abort'])
+    g('unslice', ['C14'], 'h_unslice', 'cstl_array_unslice', 'unslice into another object: whole buffer, own owner count')
+    g('unslice.inplace', ['C14'], 'h_unslice', 'cstl_array_unslice', 'unslice in place', defines=['-DVF_A_INPLACE'])
+    g('alloc', ['C14', 'C16'], 'h_alloc', 'cstl_array_alloc', 're-allocating an object that is a view (any offset): old owner count released, fresh view from offset 0 or empty; every allocation-failure subset; unrepresentable nm*sz', shards=10, timeout=1200)
+    g('alloc.empty', ['C14', 'C16'], 'h_alloc', 'cstl_array_alloc', 'alloc on an empty object', defines=['-DVF_A_EMPTY'])
+    g('release', ['C14'], 'h_release', 'cstl_array_release', 'release of an internal buffer: NULL, nothing changes')
+    g('release.external', ['C14'], 'h_release', 'cstl_array_release', 'release of an external buffer: handed back only to the sole user', defines=['-DVF_A_EXTERNAL'])
+    g('set', ['C14', 'C16'], 'h_set', 'cstl_array_set', 'set wraps an external buffer or leaves the object empty')
+    names = ['alloc', 'set', 'release', 'data_const', 'at_const', 'slice', 'unslice', 'reset']
+    for i, n in enumerate(names, 1):
+        G.append(Group('array.stray.' + n, ['C20'], 'P', S, 'h_stray', enforce='cstl_array_' + n, sources=src,
+                       defines=['-DVF_STRAY=%d' % i], covers=['abort'], unwind=2,
+                       what='stray (bitwise-copied) array object: cstl_array_%s never returns normally and writes nothing before aborting' % n))
+    return G
+
+
 def all_groups():
     G = []
     G += hash_groups()
     G += vector_groups()
     G += memory_groups()
+    G += array_groups()
     return G
